@@ -472,7 +472,12 @@ func (w *writer) stringCode(str []rune) int {
 		return 0
 	}
 
-	hash := string(str)
+	// (not string(str): that conversion maps every surrogate to U+FFFD and would merge different literals)
+	key := make([]byte, 0, 4*len(str))
+	for _, r := range str {
+		key = append(key, byte(r), byte(r>>8), byte(r>>16), byte(r>>24))
+	}
+	hash := string(key)
 	i, ok := w.stringhash[hash]
 	if !ok {
 		i = len(w.stringhash)
